@@ -72,6 +72,7 @@ try:
             shutil.copy(os.path.join(src, f), os.path.join(wt, f))
     cmd = meta["demo_cmd"].replace(src.rstrip("/"), wt)
     res["demo_cmd"] = cmd
+    cmd = "timeout -k 5 420 bash -c %s" % __import__("shlex").quote(cmd)
     rc1, o1 = sh(cmd, wt, 900)
     res["steps"]["demo_fails_with_change"] = rc1 != 0
     res["demo_with_tail"] = o1[-1200:]
